@@ -69,6 +69,10 @@ CHECKS["C08"] = dict(category="proof",
    technique="Lean 4 theorems about Model.EventQueue (all interleavings of atomic enqueue/dequeue) and about when Model.Large/Fast.step take events from which queue; tied to the code by I = M on operation sequences with several external events pending, and by a multi-producer stress harness on the ThreadSanitizer build with an exactly-once / per-sender-order / internal-before-external oracle",
    text="Proved: the queue delivers exactly the enqueued events, once, in lock order, per-sender order kept, for every schedule of any number of threads; the micro-steppers take an external event only at a macrostep boundary (internal queue empty, no eventless transition pending, stable configuration reported), process internal events in raise order and external ones in arrival order. The atomicity of enqueue/dequeue (one mutex) and the absence of data races are runtime facts: explored with ThreadSanitizer and producer threads, not proved.",
    design_ref="6 / C08", note="Trusted: Lean kernel; hand models Model.EventQueue, Model.Large/Fast; the threads harness and its oracle; ThreadSanitizer. Partial: thread interleavings are sampled.")
+CHECKS["C20"] = dict(category="exploration",
+   technique="process-instance comparison: every trace and every transpiler output is produced in 5 process instances (ASLR on twice, ASLR off, cache files cold and warm); traces must equal the Lean model's (a function of chart and events), emitted text must be byte-identical",
+   text="For interpretation the technique applies through the tie: the Lean engine models are functions, and I = M in every process instance means the interpreter's trace does not depend on the process. For the transpilers there is no Lean model of the emitted bytes (C04/C06/C18 model what the emitted code computes, not its text), so byte-identity is decided by comparing separate processes: exploration, said as such.",
+   design_ref="6 / C20", note="Trusted: the emit/trace harness, setarch -R, the kernel's address-space randomisation as the source of different layouts.")
 PENDING = {}   # id -> reason (filled while the framework is being built)
 
 def main():
